@@ -361,15 +361,6 @@ Proof.
   intros Hhb. apply Hne. eapply hb_adjacent_acc; eauto.
 Qed.
 
-(* ------------------------------------------------------------------ completeness: offenders are realisable *)
-
-(* every pair the checker reports is a race of some execution of the table *)
-Definition witness (c f : occ) : trace :=
-  (Ctl, EFork) ::
-  (match a_prot (o_acc c) with Mutex m => [(Ctl, EAcq m)] | _ => [] end) ++
-  (match a_prot (o_acc f) with Mutex m => [(Flt, EAcq m)] | _ => [] end) ++
-  [(Ctl, EAcc c); (Flt, EAcc f)].
-
 (* ------------------------------------------------------------------ boolean validity *)
 
 Lemma rw_eqb_eq a b : rw_eqb a b = true -> a = b.
@@ -423,3 +414,109 @@ Qed.
 
 Theorem validb_sound tbl tr : validb tbl tr = true -> valid tbl tr.
 Proof. intros H i s Hs. apply (validb_from_sound tbl tr init H i s Hs). Qed.
+
+(* ------------------------------------------------------------------ completeness: offenders are realisable *)
+
+(* every pair the checker reports is a race of some execution of the table: fork, each
+   thread takes the mutex its access is listed with (they differ), then the two accesses *)
+Definition witness (c f : occ) : trace :=
+  (Ctl, EFork) ::
+  (match a_prot (o_acc c) with Mutex m => [(Ctl, EAcq m)] | _ => [] end) ++
+  (match a_prot (o_acc f) with Mutex m => [(Flt, EAcq m)] | _ => [] end) ++
+  [(Ctl, EAcc c); (Flt, EAcc f)].
+
+Lemma pair_ok_false c f : pair_ok c f = false ->
+  conflicting (o_acc c) (o_acc f) = true /\ both_atomic (o_acc c) (o_acc f) = false /\
+  common_mutex (o_acc c) (o_acc f) = false /\ o_phase c = Concurrent.
+Proof.
+  unfold pair_ok. rewrite !orb_false_iff, negb_false_iff. intros [[[A B] C] D].
+  repeat split; auto. destruct (o_phase c); simpl in D; congruence.
+Qed.
+
+Ltac step_tac :=
+  unfold step_ok, state_at, enabled, phase_ok, apply, set_owner; simpl;
+  repeat match goal with
+  | |- _ /\ _ => split
+  | |- forall _, _ => intro
+  | H : ?x = Concurrent |- context [?x] => rewrite H
+  | H : Mutex _ = Mutex _ |- _ => inversion H; subst; clear H
+  | H : Atomic = Mutex _ |- _ => discriminate H
+  | H : Plain = Mutex _ |- _ => discriminate H
+  | |- context [String.eqb ?a ?a] => rewrite String.eqb_refl
+  | H : String.eqb ?a ?b = false |- context [String.eqb ?a ?b] => rewrite H
+  | H : String.eqb ?a ?b = false |- context [String.eqb ?b ?a] => rewrite (String.eqb_sym b a), H
+  end; simpl; auto.
+
+Theorem offenders_realisable tbl c f : In (c, f) (race_freeb tbl) ->
+  exists tr i, valid tbl tr /\ race tr i (S i) c f.
+Proof.
+  intros H. apply in_race_freeb in H. destruct H as (Hc & Tc & Hf & Tf & P).
+  apply pair_ok_false in P. destruct P as (Hconf & Hat & Hcm & Hph).
+  exists (witness c f).
+  assert (Hadj : forall i, nth_error (witness c f) i = Some (Ctl, EAcc c) ->
+                           nth_error (witness c f) (S i) = Some (Flt, EAcc f) -> race (witness c f) i (S i) c f).
+  { intros i Hi Hj. exists Ctl, Flt. repeat split; auto; try discriminate.
+    intros Hhb. pose proof (hb_adjacent_acc _ _ _ _ _ _ Hhb Hi Hj). discriminate. }
+  unfold witness in *. unfold common_mutex in Hcm.
+  destruct (a_prot (o_acc c)) as [m1| |] eqn:Pc; destruct (a_prot (o_acc f)) as [m2| |] eqn:Pf; simpl in *.
+  all: match goal with
+       | |- exists i, valid _ (?a :: ?b :: ?c :: ?d :: ?e :: nil) /\ _ => exists 3
+       | |- exists i, valid _ (?a :: ?b :: ?c :: ?d :: nil) /\ _ => exists 2
+       | |- exists i, valid _ (?a :: ?b :: ?c :: nil) /\ _ => exists 1
+       end.
+  all: split; [|apply Hadj; reflexivity].
+  all: intros i s Hs;
+       repeat (destruct i as [|i]; [inversion Hs; subst; clear Hs; step_tac | simpl in Hs]);
+       try (destruct i; discriminate).
+Qed.
+
+(* ------------------------------------------------------------------ examples (used by Properties_C10) *)
+Local Open Scope string_scope.
+
+Definition ex_z_ctor := mkOcc Ctl PreFork "(construction)" (mkAcc (Named "z") Wr Plain "ctor").
+Definition ex_x_set  := mkOcc Ctl Concurrent "set" (mkAcc (Named "x") Wr (Mutex "m") "set:1").
+Definition ex_y_set  := mkOcc Ctl Concurrent "set" (mkAcc (Named "y") Wr Atomic "set:2").
+Definition ex_x_body := mkOcc Flt Concurrent "body" (mkAcc (Named "x") Rd (Mutex "m") "body:1").
+Definition ex_y_body := mkOcc Flt Concurrent "body" (mkAcc (Named "y") Rd Atomic "body:2").
+Definition ex_z_body := mkOcc Flt Concurrent "body" (mkAcc (Named "z") Rd Plain "body:3").
+
+(* x under a mutex on both sides, y atomic on both sides, z written only before the fork *)
+Definition ex_tbl : table :=
+  [ mkEntry "(construction)" Ctl PreFork [o_acc ex_z_ctor];
+    mkEntry "set" Ctl Concurrent [o_acc ex_x_set; o_acc ex_y_set];
+    mkEntry "body" Flt Concurrent [o_acc ex_x_body; o_acc ex_y_body; o_acc ex_z_body] ].
+
+Definition ex_trace : trace :=
+  [ (Ctl, EAcc ex_z_ctor); (Ctl, EFork);
+    (Flt, EAcq "m"); (Flt, EAcc ex_x_body); (Flt, ERel "m");
+    (Ctl, EAcq "m"); (Ctl, EAcc ex_x_set); (Ctl, EAcc ex_y_set); (Flt, EAcc ex_y_body); (Flt, EAcc ex_z_body);
+    (Ctl, ERel "m"); (Ctl, EJoin) ].
+
+Lemma ex_tbl_ok : race_freeb ex_tbl = [] /\ validb ex_tbl ex_trace = true.
+Proof. vm_compute. split; reflexivity. Qed.
+
+(* the same with the filtering thread reading x without the mutex *)
+Definition ex_x_body_plain := mkOcc Flt Concurrent "body" (mkAcc (Named "x") Rd Plain "body:1").
+Definition ex_bad_tbl : table :=
+  [ mkEntry "set" Ctl Concurrent [o_acc ex_x_set];
+    mkEntry "body" Flt Concurrent [o_acc ex_x_body_plain] ].
+Definition ex_bad_trace : trace :=
+  [ (Ctl, EFork); (Ctl, EAcq "m"); (Ctl, EAcc ex_x_set); (Flt, EAcc ex_x_body_plain) ].
+
+Lemma ex_bad_tbl_races : race_freeb ex_bad_tbl = [(ex_x_set, ex_x_body_plain)] /\
+  valid ex_bad_tbl ex_bad_trace /\ race ex_bad_trace 2 3 ex_x_set ex_x_body_plain.
+Proof.
+  split; [vm_compute; reflexivity|]. split; [apply validb_sound; vm_compute; reflexivity|].
+  exists Ctl, Flt. repeat split; auto; try discriminate.
+  intros Hhb. pose proof (hb_adjacent_acc ex_bad_trace 2 Ctl Flt _ _ Hhb eq_refl eq_refl). discriminate.
+Qed.
+
+(* order-insensitive comparison of two lists of names *)
+Definition subset_str (a b : list string) : bool := forallb (fun x => mem_str x b) a.
+Definition same_set (a b : list string) : bool := subset_str a b && subset_str b a.
+
+Lemma same_set_in a b : same_set a b = true -> forall x, In x a <-> In x b.
+Proof.
+  unfold same_set, subset_str. rewrite andb_true_iff, !forallb_forall. intros [A B] x.
+  split; intros H; apply mem_str_in; auto.
+Qed.
